@@ -21,7 +21,7 @@ from vlib import Infra, log, read_ndjson
 
 TIERS = {
     "quick": dict(MaxFull=2, MaxCore=4, MaxTiny=4, MaxLref=4, MaxChars=3, MutFams="{14, 15}", NChunks=12, MutEvery=8),
-    "thorough": dict(MaxFull=3, MaxCore=4, MaxTiny=5, MaxLref=5, MaxChars=4, MutFams="{11, 13, 14, 15, 17}", NChunks=12, MutEvery=2),
+    "thorough": dict(MaxFull=3, MaxCore=4, MaxTiny=5, MaxLref=5, MaxChars=4, MutFams="{11, 14, 15}", NChunks=12, MutEvery=3),
 }
 
 
